@@ -73,7 +73,10 @@ func drawCase(t *rapid.T) caseT {
 	for i := range c.Versions {
 		c.Versions[i].Time = perm[i]
 	}
-	norders := rapid.IntRange(2, 4).Draw(t, "norders")
+	norders := rapid.IntRange(2, 3).Draw(t, "norders")
+	if hx.Thorough() {
+		norders = rapid.IntRange(2, 4).Draw(t, "norders_t")
+	}
 	if c.NSplits == 1 {
 		norders = 1
 	}
